@@ -978,6 +978,49 @@ class KernelRun:
         wf.to_be_deleted.clear()
         await self.simple("clear_queue", lambda: None)
 
+    async def cycle_via_detached(self):
+        """S builds o, T turns o into f; the plan runs again and only re-declares S, so T and f stay
+        behind detached; S then amends f as an input: a dependency cycle through detached nodes, which
+        must be rejected."""
+        r, wf = self.r, self.wf
+        running = await self.q(lambda: self.steps(StepState.RUNNING))
+        if "./plan.py" not in running:
+            return
+        o, f = r.sample(PATHS, 2)
+        for args in (("S", [], [o], Need.DEFAULT), ("T", [o], [f], Need.DEFAULT)):
+            if not (await self.define_explicit("./plan.py", *args)).startswith("ok"):
+                return
+        await self.complete_ok("./plan.py")
+        for label in ("S", "T"):
+            if not await self.pop_until(label, limit=3):
+                return
+            await self.complete_ok(label)
+        await self.step_op("mark_pending", "./plan.py", fn=lambda: wf.mark_step_pending(wf.find(Step, "./plan.py")))
+        await self.step_op("delete_hash", "./plan.py", fn=lambda: wf.find(Step, "./plan.py").delete_hash())
+        if not await self.pop_until("./plan.py", limit=3):
+            return
+        await self.step_op("reset_rerun", "./plan.py", fn=lambda: wf.find(Step, "./plan.py").reset_for_rerun())
+        if not (await self.define_explicit("./plan.py", "S", [], [o], Need.DEFAULT)).startswith("ok"):
+            return
+        await self.step_op("mark_pending", "S", fn=lambda: wf.mark_step_pending(wf.find(Step, "S")))
+        await self.step_op("delete_hash", "S", fn=lambda: wf.find(Step, "S").delete_hash())
+        if not await self.pop_until("S", limit=3):
+            return
+        await self.step_op("reset_rerun", "S", fn=lambda: wf.find(Step, "S").reset_for_rerun())
+
+        def fn():
+            return wf.amend_step(wf.find(Step, "S"), inp_paths=[f], ran_concurrently=lambda p, c: False)
+
+        def res_(v):
+            un, uf, chk = v
+            return f"{hexlist(sorted(str(x) for x in un))}|{hexlist(sorted(str(x) for x in uf))}|{hexlist(sorted(chk))}"
+
+        await self.tx(f"k amend {kkey('step', 'S')} {hexlist([f])} . . . .", fn, res_)
+        if r.random() < 0.5:
+            await self.define_explicit("./plan.py", "T", [o], [f], Need.DEFAULT)
+        for _ in range(2):
+            await self.pop()
+
     async def retarget_optional(self):
         """An OPTIONAL step is built because its output is named as a target; the next director is
         started with other targets (or none): the step must no longer count as needed."""
@@ -1062,7 +1105,7 @@ class KernelRun:
             await self.tx("k reconcile", lambda: wf.reconcile_targets())
 
     SCENARIOS = ("nested_chain", "deferred_wakeup", "resource_race", "detached_completion", "rerole",
-                 "amended_consumer_rerun", "hold_recycle", "shrink_resources", "retarget_optional")
+                 "amended_consumer_rerun", "hold_recycle", "shrink_resources", "retarget_optional", "cycle_via_detached")
 
     async def generate(self, cm, nops: int, scenario: str | None = None):
         """A history: boot, then (in the well-formed stream) one directed scenario with probability
@@ -1093,6 +1136,8 @@ class KernelRun:
                 await self.shrink_resources()
             elif k < 0.72:
                 await self.retarget_optional()
+            elif k < 0.76:
+                await self.cycle_via_detached()
         menu = [(self.define, 20), (self.static, 8), (self.declstatic, 5), (self.tree, 4), (self.nglob, 4),
                 (self.amend, 8), (self.recycle_under_glob, 3),
                 (self.confirm, 12), (self.external, 6), (self.pop, 18), (self.run_step, 18),
